@@ -353,6 +353,16 @@ var boundaryTemplates = []struct {
 	{"b = make([]int64, 1)\nb[0] = 1\nfunc bump() {\nb[0] = 2\nreturn 2\n}\nswitch b[0] {\ncase bump():\nprobe(\"two\")\ndefault:\nprobe(\"other\")\n}", []string{"(s 6f74686572)"}, ""},
 	{"c = [1, 2]\nfunc bump() {\nc[0] = 2\nreturn 2\n}\nswitch c[0] {\ncase bump():\nprobe(\"two\")\ncase 1:\nprobe(\"one\")\n}", []string{"(s 6f6e65)"}, ""},
 	{"s = make(struct {\nA int64\n})\ns.A = 1\nfunc bump() {\ns.A = 7\nreturn 7\n}\nswitch s.A {\ncase bump():\nprobe(\"seven\")\ncase 1:\nprobe(\"one\")\n}", []string{"(s 6f6e65)"}, ""},
+	// the body of a C-style loop may move the loop variable: the condition and the post expression see what the body stored
+	{"n = 0\nfor i = 0; i < 10; i++ {\nn++\nif i == 2 {\ni = 7\n}\n}\nprobe(n)", []string{"(i 5)"}, ""},
+	{"n = 0\nfor i = 0; i < 10; i++ {\nn++\nif n == 3 {\ni = 1000\n}\n}\nprobe(n)", []string{"(i 3)"}, ""},
+	{"n = 0\nfor var i = 0; i <= 9; i++ {\nn++\ni++\n}\nprobe(n)", []string{"(i 5)"}, ""},
+	{"n = 0\nfor i = 0; i < 4; i++ {\nn++\nif i == 2 && n < 6 {\ni = 0\n}\n}\nprobe(n)", []string{"(i 8)"}, ""},
+	{"n = 0\nlim = 10\nfor i = 0; i < lim; i++ {\nn++\nlim = 3\n}\nprobe(n)", []string{"(i 3)"}, ""},
+	// every invocation hands back ITS result, also when one function value (variadic / 5 parameters / 2 parameters) is invoked
+	// from several goroutines at the same time and returns from inside nested loops
+	{"res = make(chan int64, 8)\nfunc pick(k, r...) {\nfor i = 0; i < 3; i++ {\nfor j in [1, 2] {\nif i == 1 && j == 2 {\nreturn k * 100 + len(r)\n}\n}\n}\nreturn -1\n}\nfunc worker(k) {\nvar bad = 0\nfor n = 0; n < 3000; n++ {\nif pick(k, 1, 2) != k * 100 + 2 {\nbad++\n}\n}\nres <- bad\n}\nfor k = 0; k < 8; k++ {\ngo worker(k)\n}\nt = 0\nfor k = 0; k < 8; k++ {\nt += <-res\n}\nprobe(t)", []string{"(i 0)"}, ""},
+	{"res = make(chan int64, 8)\nfunc pick5(k, a, b, c, d) {\nwhile = 0\nfor {\nwhile++\nif while > 2 {\nreturn k + a\n}\n}\n}\nfunc worker(k) {\nvar bad = 0\nfor n = 0; n < 3000; n++ {\nif pick5(k, 1, 2, 3, 4) != k + 1 {\nbad++\n}\n}\nres <- bad\n}\nfor k = 0; k < 8; k++ {\ngo worker(k)\n}\nt = 0\nfor k = 0; k < 8; k++ {\nt += <-res\n}\nprobe(t)", []string{"(i 0)"}, ""},
 	// assigning to a for-in variable does not leak into the next iteration
 	{"t = 0\nfor x in [5, 20, 3] {\nif x > 10 {\nx = 10\n}\nt += x\n}\nprobe(t)", []string{"(i 18)"}, ""},
 	{"r = []\nfor x in [1, 2, 3] {\nx++\nr += x\n}\nprobe(r)", []string{"(l (i 2) (i 3) (i 4))"}, ""},
